@@ -63,7 +63,21 @@ def main(argv):
         rec = {"name": chk.name, "bound": chk.bound.get(args.tier, chk.bound.get("quick", "")),
                "contract": chk.contract, "evaluations": 0, "distinct": 0, "failures": [], "error": None,
                "known_failing": []}
-        known_keys = set(json.dumps(c, sort_keys=True, default=str) for c in known.get(chk.name, []))
+        kents = known.get(chk.name, [])
+        known_keys = set(json.dumps(c["case"] if isinstance(c, dict) and "case" in c and "region" in c else c,
+                                    sort_keys=True, default=str) for c in kents)
+        known_regions = [c["region"] for c in kents if isinstance(c, dict) and c.get("region")]
+
+        def in_known(case, key):
+            if key in known_keys:
+                return True
+            for expr in known_regions:
+                try:
+                    if eval(expr, {"json": json, "case": case, "text": json.dumps(case, sort_keys=True, default=str)}):
+                        return True
+                except Exception:
+                    pass
+            return False
         t0 = time.time()
         rng = random.Random(args.seed)
         seen = set()
@@ -82,7 +96,7 @@ def main(argv):
                 if key not in seen:
                     seen.add(key)
                     rec["distinct"] += 1
-                if not ok and key in known_keys:
+                if not ok and in_known(case, key):
                     if case not in rec["known_failing"]:
                         rec["known_failing"].append(case)
                     continue
